@@ -471,6 +471,8 @@ func (x *Exec) run(choose Chooser, mon Monitor, opt ExecOpts) {
 	} else {
 		SetSelectOrder(1)
 	}
+	SetWakeFirst(sc.WakeFirst)
+	defer SetWakeFirst(false)
 	pool, err := worker.New(context.Background(), "mc", worker.WithSize(64))
 	if err != nil {
 		panic(err)
